@@ -341,6 +341,49 @@ def check_override(case, acc=None):
     out = []
     what = '%s %s.%s datatype := %s' % (v, s, fname, newdt)
     try:
+        if case.get('via') == 'constructor':
+            # the other datatype is given to the constructor of the (named) field / component, which is then attached
+            from hl7apy.core import Field, Component
+            row = {r[0]: r for r in T.seg_fields(v, s)}[fname]
+            old = row[2][2]
+            ch = T.ref_children(v, row[2])
+            try:
+                seg = Segment(s, version=v, validation_level=STRICT)
+                if depth == 2:
+                    if not ch:
+                        return []
+                    cname, _, cref, _ = ch[case['ci'] % len(ch)]
+                    old = cref[2]
+                    if newdt == old:
+                        return []
+                    f = seg.add_field(fname)
+                    case['_nt'] = True
+                    target = Component(cname, datatype=newdt, version=v, validation_level=STRICT)
+                    f.add(target)
+                else:
+                    if newdt == old:
+                        return []
+                    case['_nt'] = True
+                    target = Field(fname, datatype=newdt, version=v, validation_level=STRICT)
+                    seg.add(target)
+            except (HL7apyException, ValueError):
+                if acc is not None:
+                    acc.extra['override:constructor:refused'] += 1
+                return []
+            if target.datatype == old:
+                return []
+            if acc is not None:
+                acc.extra['override:constructor:taken:%s' % old] += 1
+            try:
+                target.value = 'a^b' if newdt == 'varies' else lit.valid(newdt if T.is_base(v, newdt) else 'ST', 1)
+            except (HL7apyException, ValueError):
+                pass
+            errs, warns = _report(seg)
+            bad = [e for e in errs if not e.startswith('Missing required child')]
+            if bad:
+                out.append(('C05-strict-let-a-datatype-be-overridden:constructor', '%s (was %s) through the constructor: accepted, then validate() reports %s' % (
+                    what, old, bad[:2])))
+            return out
         try:
             seg = Segment(s, version=v, validation_level=STRICT)
             f = seg.add_field(fname)
@@ -386,8 +429,8 @@ def override_cases(draw, cells):
     rows = T.seg_fields(v, s)
     varies = [r for r in rows if r[2][2] == 'varies']
     row = draw(st.sampled_from(varies)) if (varies and draw(st.booleans())) else draw(st.sampled_from(rows))
-    return {'kind': 'override', 'v': v, 's': s, 'f': row[0], 'dt': draw(st.sampled_from(DT_POOL)), 'depth': draw(st.sampled_from([1, 1, 2])),
-            'ci': draw(st.integers(0, 20))}
+    return {'kind': 'override', 'v': v, 's': s, 'f': row[0], 'dt': draw(st.sampled_from(DT_POOL + ('varies',))), 'depth': draw(st.sampled_from([1, 1, 2])),
+            'ci': draw(st.integers(0, 20)), 'via': draw(st.sampled_from(['setter', 'constructor']))}
 
 
 def check_overlong(v, dt):
